@@ -625,7 +625,7 @@ class Gen:
                 args = []
                 kind = k
             defs.append(AnnDef(name=name, ns=ns, kind=kind, args=args))
-        if self.cfg.custom_annotations and t.chance(45):
+        if self.cfg.custom_annotations and t.chance(80 if getattr(self.cfg, 'custom_bias', False) else 45):
             at = AnnType(name=self.fresh(ns, ANNTYPE_NAMES), ns=ns, doc=self.doc(None, short=True),
                          params=[])
             np_ = t.rng(0, 2)
@@ -687,7 +687,7 @@ class Gen:
                 if not t.chance(30):
                     continue
                 self._annotate(f, f.type, anns)
-            if isinstance(d, Alias) and t.chance(25):
+            if isinstance(d, Alias) and t.chance(55 if getattr(self.cfg, 'custom_bias', False) else 25):
                 cands = [a for a in anns if a.kind in ('RedactedBlot', 'RedactedHash') or
                          isinstance(a.kind, tuple)]
                 if cands:
@@ -736,6 +736,10 @@ class Gen:
     def _annotate(self, target, ty, anns, alias=False):
         t = self.t
         chosen = t.sample(anns, t.rng(1, 4))
+        if getattr(self.cfg, 'custom_bias', False) and t.chance(60):
+            custom = [a for a in anns if isinstance(a.kind, tuple)]
+            if len(custom) >= 2:
+                chosen = t.sample(custom, t.rng(2, 4)) + chosen[:1]
         have = set()
         for a in chosen:
             k = a.kind if isinstance(a.kind, str) else 'custom'
